@@ -1,3 +1,5 @@
+//go:build !skip_c09
+
 package main
 
 import (
@@ -13,52 +15,52 @@ func init() { register("C09", runC09) }
 
 type c09Prog struct {
 	Label     string
-	Thread    issThread
-	Seeds     []issSeed
+	Thread    c01issThread
+	Seeds     []c01issSeed
 	LastClean string
 }
 
 // c09Programs: every lock-taking operation reachable with the doubles, in the configurations
 // that change its exit paths. (Account registration needs the mock ACME CA: not covered here.)
 func c09Programs() []c09Prog {
-	due := []issSeed{{nmCanon, "due"}}
-	fresh := []issSeed{{nmCanon, "fresh"}}
+	due := []c01issSeed{{c01nmCanon, "due"}}
+	fresh := []c01issSeed{{c01nmCanon, "fresh"}}
 	return []c09Prog{
-		{"obtain-sync", issThread{Prog: "obtain", Name: nmCanon}, nil, ""},
-		{"obtain-sync-reuse-nochk", issThread{Prog: "obtain", Name: nmCanon, Reuse: true, NoChk: true}, []issSeed{{nmCanon, "keyonly"}}, ""},
-		{"obtain-sync-unicode", issThread{Prog: "obtain", Name: nmUni}, nil, ""},
-		{"obtain-async", issThread{Prog: "obtain", Name: nmCanon, Async: true}, nil, ""},
-		{"obtain-async-reuse", issThread{Prog: "obtain", Name: nmCanon, Async: true, Reuse: true}, nil, ""},
-		{"renew-sync", issThread{Prog: "renew", Name: nmCanon}, due, ""},
-		{"renew-sync-not-due", issThread{Prog: "renew", Name: nmCanon}, fresh, ""},
-		{"renew-sync-force-reuse", issThread{Prog: "renew", Name: nmCanon, Force: true, Reuse: true}, fresh, ""},
-		{"renew-sync-missing", issThread{Prog: "renew", Name: nmCanon, NoChk: true}, nil, ""},
-		{"renew-async", issThread{Prog: "renew", Name: nmCanon, Async: true}, due, ""},
-		{"renew-async-force", issThread{Prog: "renew", Name: nmCanon, Async: true, Force: true, NoChk: true}, fresh, ""},
-		{"manage-obtain", issThread{Prog: "manage", Name: nmCanon}, nil, ""},
-		{"manage-renew", issThread{Prog: "manage", Name: nmCanon}, due, ""},
-		{"clean", issThread{Prog: "clean"}, due, ""},
-		{"clean-interval-first", issThread{Prog: "clean", Interval: true}, fresh, ""},
-		{"clean-interval-old", issThread{Prog: "clean", Interval: true}, fresh, "old"},
-		{"clean-interval-recent", issThread{Prog: "clean", Interval: true}, fresh, "recent"},
-		{"ari-update", issThread{Prog: "ari", Name: nmCanon}, fresh, ""},
-		{"ari-newer-in-storage", issThread{Prog: "ari", Name: nmCanon, Newer: true}, fresh, ""},
+		{"obtain-sync", c01issThread{Prog: "obtain", Name: c01nmCanon}, nil, ""},
+		{"obtain-sync-reuse-nochk", c01issThread{Prog: "obtain", Name: c01nmCanon, Reuse: true, NoChk: true}, []c01issSeed{{c01nmCanon, "keyonly"}}, ""},
+		{"obtain-sync-unicode", c01issThread{Prog: "obtain", Name: c01nmUni}, nil, ""},
+		{"obtain-async", c01issThread{Prog: "obtain", Name: c01nmCanon, Async: true}, nil, ""},
+		{"obtain-async-reuse", c01issThread{Prog: "obtain", Name: c01nmCanon, Async: true, Reuse: true}, nil, ""},
+		{"renew-sync", c01issThread{Prog: "renew", Name: c01nmCanon}, due, ""},
+		{"renew-sync-not-due", c01issThread{Prog: "renew", Name: c01nmCanon}, fresh, ""},
+		{"renew-sync-force-reuse", c01issThread{Prog: "renew", Name: c01nmCanon, Force: true, Reuse: true}, fresh, ""},
+		{"renew-sync-missing", c01issThread{Prog: "renew", Name: c01nmCanon, NoChk: true}, nil, ""},
+		{"renew-async", c01issThread{Prog: "renew", Name: c01nmCanon, Async: true}, due, ""},
+		{"renew-async-force", c01issThread{Prog: "renew", Name: c01nmCanon, Async: true, Force: true, NoChk: true}, fresh, ""},
+		{"manage-obtain", c01issThread{Prog: "manage", Name: c01nmCanon}, nil, ""},
+		{"manage-renew", c01issThread{Prog: "manage", Name: c01nmCanon}, due, ""},
+		{"clean", c01issThread{Prog: "clean"}, due, ""},
+		{"clean-interval-first", c01issThread{Prog: "clean", Interval: true}, fresh, ""},
+		{"clean-interval-old", c01issThread{Prog: "clean", Interval: true}, fresh, "old"},
+		{"clean-interval-recent", c01issThread{Prog: "clean", Interval: true}, fresh, "recent"},
+		{"ari-update", c01issThread{Prog: "ari", Name: c01nmCanon}, fresh, ""},
+		{"ari-newer-in-storage", c01issThread{Prog: "ari", Name: c01nmCanon, Newer: true}, fresh, ""},
 	}
 }
 
-func c09Emit(w *emit.Writer, label string, cs issCase, o *issObs) {
+func c09Emit(w *emit.Writer, label string, cs c01issCase, o *c01issObs) {
 	rec := cs
 	rec.Policy, rec.Script = "script", o.Sched
 	d := map[string]any{"class": cs.Class, "program": label, "threads": len(cs.Threads), "faults": len(cs.Faults), "steps": len(o.Steps),
 		"held": o.Held, "recorded": o.Recorded, "deadlock": o.Deadlock}
-	w.Add(emit.Case{Desc: d, In: rec, Obs: o, Wire: issWire(9, o), Nontrivial: len(cs.Faults) > 0, Key: fmt.Sprint(label, len(cs.Threads), cs.Faults, o.Sched)})
+	w.Add(emit.Case{Desc: d, In: rec, Obs: o, Wire: c01issWire(9, o), Nontrivial: len(cs.Faults) > 0, Key: fmt.Sprint(label, len(cs.Threads), cs.Faults, o.Sched)})
 	w.Hist("program=" + label)
 	w.Hist("class=" + cs.Class)
 	w.Hist(fmt.Sprintf("threads=%d", len(cs.Threads)))
 	for _, s := range o.Steps {
 		if s.Fault != 0 {
-			w.Hist("fault=" + faultNames[s.Fault])
-			w.Hist("fault_at=" + opKindOf(s.Desc))
+			w.Hist("fault=" + c01FaultNames[s.Fault])
+			w.Hist("fault_at=" + c09OpKindOf(s.Desc))
 		}
 	}
 	for _, r := range o.Results {
@@ -66,7 +68,7 @@ func c09Emit(w *emit.Writer, label string, cs issCase, o *issObs) {
 	}
 }
 
-func opKindOf(desc string) string {
+func c09OpKindOf(desc string) string {
 	for i := 0; i < len(desc); i++ {
 		if desc[i] == ' ' {
 			return desc[:i]
@@ -85,11 +87,11 @@ func runC09(tier string, seed int64, outdir string, replay string) error {
 		if err != nil {
 			return err
 		}
-		var cs issCase
+		var cs c01issCase
 		if err := json.Unmarshal(rc.In, &cs); err != nil {
 			return err
 		}
-		o, err := runIssCase(cs)
+		o, err := c01RunIssCase(cs)
 		if err != nil {
 			return err
 		}
@@ -97,8 +99,8 @@ func runC09(tier string, seed int64, outdir string, replay string) error {
 		c09Emit(w, label, cs, o)
 		return nil
 	}
-	mk := func(p c09Prog, nth int) issCase {
-		cs := issCase{Seeds: p.Seeds, LastClean: p.LastClean, Policy: "rr", Class: "generic", AllowSaveFault: true, AllowUnlockFault: true, AllowOverlap: true}
+	mk := func(p c09Prog, nth int) c01issCase {
+		cs := c01issCase{Seeds: p.Seeds, LastClean: p.LastClean, Policy: "rr", Class: "generic", AllowSaveFault: true, AllowUnlockFault: true, AllowOverlap: true}
 		for i := 0; i < nth; i++ {
 			cs.Threads = append(cs.Threads, p.Thread)
 		}
@@ -107,14 +109,14 @@ func runC09(tier string, seed int64, outdir string, replay string) error {
 	total := 0
 	for _, p := range c09Programs() {
 		base := mk(p, 1)
-		o, err := runIssCase(base)
+		o, err := c01RunIssCase(base)
 		if err != nil {
 			return fmt.Errorf("%s: %v", p.Label, err)
 		}
 		if tier == "debug" {
 			fmt.Fprintf(os.Stderr, "--- %s results=%v held=%d rec=%d\n", p.Label, o.Results, o.Held, o.Recorded)
 			for _, s := range o.Steps {
-				fmt.Fprintf(os.Stderr, "   t%d %-6s %-70s out=%d enc=%v\n", s.Tid, faultNames[s.Fault], s.Desc, s.Out, s.Op)
+				fmt.Fprintf(os.Stderr, "   t%d %-6s %-70s out=%d enc=%v\n", s.Tid, c01FaultNames[s.Fault], s.Desc, s.Out, s.Op)
 			}
 		}
 		c09Emit(w, p.Label, base, o)
@@ -125,17 +127,17 @@ func runC09(tier string, seed int64, outdir string, replay string) error {
 				continue
 			}
 			for k := 0; k < n; k++ {
-				isUnlock := opKindOf(o.Steps[k].Desc) == "Unlock"
-				for f := fErr; f <= fPanic; f++ {
+				isUnlock := c09OpKindOf(o.Steps[k].Desc) == "Unlock"
+				for f := c01fErr; f <= c01fPanic; f++ {
 					cs := mk(p, nth)
 					cs.Faults = map[string]int{fmt.Sprintf("0:%d", k): f}
-					if isUnlock && f != fCancel {
+					if isUnlock && f != c01fCancel {
 						if nth == 2 {
 							continue // the second thread could never get the lock: by definition still held
 						}
 						cs.Class = "fault-at-unlock"
 					}
-					oo, err := runIssCase(cs)
+					oo, err := c01RunIssCase(cs)
 					if err != nil {
 						return fmt.Errorf("%s fault %d@%d: %v", p.Label, f, k, err)
 					}
@@ -163,7 +165,7 @@ func runC09(tier string, seed int64, outdir string, replay string) error {
 			cs.Faults[fmt.Sprintf("%d:%d", r.Intn(len(cs.Threads)), r.Intn(30))] = 1 + r.Intn(3)
 		}
 		cs.AllowUnlockFault = false
-		oo, err := runIssCase(cs)
+		oo, err := c01RunIssCase(cs)
 		if err != nil {
 			return fmt.Errorf("%s random plan %v: %v", p.Label, cs.Faults, err)
 		}
